@@ -89,7 +89,12 @@ Digits == "0123456789"
 ChSet(s, base) == {<<SubSeq(s, i, i), base + i>> : i \in 1..Len(s)}
 ChPairs == ChSet(Upper, 64) \cup ChSet(Lower, 96) \cup ChSet(Digits, 47)
            \cup {<<" ", 32>>, <<"*", 42>>, <<"-", 45>>, <<".", 46>>, <<"(", 40>>, <<")", 41>>}
-CodeOf == [ch \in {p[1] : p \in ChPairs} |-> (CHOOSE p \in ChPairs : p[1] = ch)[2]]
+\* TLC keeps [x \in S |-> e] unevaluated and re-evaluates e at every application;
+\* tables are therefore built explicitly from their graphs
+RECURSIVE PairsToFun(_)
+PairsToFun(P) == IF P = {} THEN <<>>
+                 ELSE LET p == CHOOSE q \in P : TRUE IN (p[1] :> p[2]) @@ PairsToFun(P \ {p})
+CodeOf == PairsToFun(ChPairs)
 Chars(s) == [i \in 1..Len(s) |-> CodeOf[SubSeq(s, i, i)]]
 
 IsDigit(c) == c \in 48..57
@@ -132,11 +137,10 @@ DevName(id, code, name, dv) ==
 MkDv(d, dv) ==
   LET named == (Required(d) \cup d.adopted) \ d.unsure
       rowOf(c) == CHOOSE r \in d.rows : r[1] = c
-      nm == [c \in named |-> Chars(DevName(d.id, c, rowOf(c)[2], dv))]
-      folds == {Fold(nm[c]) : c \in named}
+      nm == PairsToFun({<<c, Chars(DevName(d.id, c, rowOf(c)[2], dv))>> : c \in named})
   IN [id |-> d.id, max |-> d.max, style |-> d.style, prefix |-> Chars(d.prefix),
       named |-> named, nm |-> nm,
-      byfold |-> [f \in folds |-> CHOOSE c \in named : Fold(nm[c]) = f],
+      byfold |-> PairsToFun({<<Fold(nm[c]), c>> : c \in named}),
       unsure |-> d.unsure, rows |-> d.rows, adopted |-> d.adopted]
 
 \* a table is well formed: P1's "no two mnemonics share a code, none listed twice"
